@@ -117,4 +117,83 @@ func decodeMsgPack
   modifies *dyn(out)
 func fsmState.encode
 func VersionMetadata.encode
+
+// ---- C15: the replicated-log store (relative to the assumed RocksDB wrapper contract) -----
+// Keys of the log table are the 8-byte big-endian index, so key order is index order
+// (the lemma  a < b  <==>  be64(a) <lex be64(b)  is arithmetic and is not re-proved here).
+
+immutable raftLog.db, raftLog.cfHandles, raftLog.ro, raftLog.wo, raftLog.codec by newRaftLogOpts, raftLog.Close
+define LogOK(s) = s.db != nil && len(s.cfHandles) == 3
+
+func raftLog.encodeRaftLog
+  ensures isnil(result_1) ==> true
+func raftLog.decodeRaftLog
+  modifies *log
+
+// an entry is stored under the big-endian bytes of ITS index, in the log table, with one write
+func raftLog.StoreLog
+  props C15
+  requires LogOK(s) && log != nil
+  modifies dbWrites, lastPutKey, lastPutVal, lastPutCF
+  ensures C15/key-is-index: isnil(result) ==> dbWrites == old(dbWrites) + 1 && lastPutKey == be64(log.Index) && lastPutCF == s.cfHandles[logTable]
+  ensures C15/encode-error-writes-nothing: dbWrites == old(dbWrites) || dbWrites == old(dbWrites) + 1
+
+// many entries: all in ONE batch, written with ONE write
+func raftLog.StoreLogs
+  props C15
+  requires LogOK(s) && (forall k int :: 0 <= k && k < len(logs) ==> logs[k] != nil)
+  modifies dbWrites, lastWritePuts, lastWriteHadLogData, batchPuts, batchHasLogData, lastPutKey, lastPutVal, lastPutCF
+  ensures C15/one-batch: isnil(result) ==> dbWrites == old(dbWrites) + 1 && lastWritePuts == len(logs)
+  loop 1 modifies batchPuts, lastPutKey, lastPutVal, lastPutCF
+  loop 1 invariant batchPuts == rangeindex + 1 && rangeindex < len(logs) && dbWrites == old(dbWrites)
+
+// an entry is looked up under the big-endian bytes of the index asked for, in the log table
+func raftLog.GetLog
+  props C15
+  requires LogOK(s) && log != nil
+  modifies *log, lastGetKey, lastGetCF
+  ensures C15/lookup-key: lastGetKey == be64(index) && lastGetCF == s.cfHandles[logTable]
+
+// the INCLUSIVE range [min, max] is removed: the wrapper's range is half open, hence max+1
+func raftLog.DeleteRange
+  props C15
+  requires LogOK(s) && max < 18446744073709551615
+  modifies dbWrites, lastWritePuts, lastWriteHadLogData, batchPuts, batchHasLogData, lastDelStart, lastDelEnd, lastDelCF
+  ensures C15/inclusive-range: lastDelStart == be64(min) && lastDelEnd == be64(max + 1) && lastDelCF == s.cfHandles[logTable] && dbWrites == old(dbWrites) + 1
+
+// smallest / largest stored index (0 when the table is empty)
+// (data invariant, as a precondition: the log table only holds the 8-byte keys StoreLog(s) writes)
+func raftLog.FirstIndex
+  props C15
+  requires LogOK(s) && keys8(s.cfHandles[logTable])
+  modifies lastSeek
+  ensures C15/seeks-first: lastSeek == 1
+func raftLog.LastIndex
+  props C15
+  requires LogOK(s) && keys8(s.cfHandles[logTable])
+  modifies lastSeek
+  ensures C15/seeks-last: lastSeek == 2
+
+// settings live in the stable table under the caller's key
+func raftLog.Set
+  props C15
+  requires LogOK(s)
+  modifies dbWrites, lastPutKey, lastPutVal, lastPutCF
+  ensures C15/stable-table: lastPutKey == bytes(key) && lastPutVal == bytes(val) && lastPutCF == s.cfHandles[stableTable]
+func raftLog.Get
+  props C15
+  requires LogOK(s)
+  modifies lastGetKey, lastGetCF
+  ensures C15/stable-table: lastGetKey == bytes(key) && lastGetCF == s.cfHandles[stableTable]
+  ensures isnil(result_1) && vals8(s.cfHandles[stableTable], bytes(key)) ==> len(result_0) == 8
+func raftLog.SetUint64
+  props C15
+  requires LogOK(s)
+  modifies dbWrites, lastPutKey, lastPutVal, lastPutCF
+  ensures C15/value-is-big-endian: lastPutKey == bytes(key) && lastPutVal == be64(val) && lastPutCF == s.cfHandles[stableTable]
+// (data invariant, as a precondition: a key read as uint64 was written by SetUint64)
+func raftLog.GetUint64
+  props C15
+  requires LogOK(s) && vals8(s.cfHandles[stableTable], bytes(key))
+  modifies lastGetKey, lastGetCF
 @*/
